@@ -83,6 +83,47 @@ class Unit:
         return symex.run_function(self.fn, inputs, ctx, consts=consts, features=features, n_stmts=n_stmts)
 
 
+def has_havoc(terms):
+    """Does a value depend on something the tolerant evaluator replaced by an unconstrained variable?"""
+    return any(k.startswith("havoc_") for k in tm.free_vars([t for t in terms if isinstance(t, tm.T)]))
+
+
+def run_until_call(unit, inputs, stop_calls, extra_files=(), consts=None, contracts=None, self_ty=None):
+    """TOLERANT run of a function body from its first statement up to the first call of one of `stop_calls` (resolved names such
+    as "SimulationBoundary::cuboid"). Statements outside the evaluator's subset are skipped with every value they may write
+    replaced by an unconstrained one (symex.Havoc). Returns (name, args at the call, env at the call, ctx); raises Undecided if
+    the call is never reached (lost anchor)."""
+    ctx = symex.Ctx()
+    ctx.resolver = unit.resolver(extra_files)
+    if contracts: ctx.contracts.update(contracts)
+    box = {}
+    def hook(name):
+        def h(interp, env, node, args):
+            box["hit"] = (name, list(args), symex.Env(ctx, dict(env.vars), env.pc, env.self_ty))
+            raise symex.StopExecution(name)
+        return h
+    for nm in stop_calls: ctx.contracts[nm] = hook(nm)
+    it = symex.Interp(ctx, dict(unit.auto_consts(extra_files), **(consts or {})))
+    it.tolerant = True
+    fn = unit.fn
+    if self_ty is None and "::" in fn["path"]: self_ty = fn["path"].split("::")[0]
+    env = symex.Env(ctx, {}, TRUE, self_ty)
+    for p in fn["sig"]["params"]:
+        if p["k"] == "self": env.vars["self"] = inputs["self"]
+        else:
+            pat = p["pat"]
+            while pat["k"] == "ptype": pat = pat["pat"]
+            env.vars[pat["name"]] = inputs[pat["name"]]
+    try:
+        it.exec_block(env, fn["body"])
+    except symex.StopExecution:
+        pass
+    if "hit" not in box:
+        raise extract.Undecided("lost anchor: no call of %s reached in %s (skipped: %r)" % (" / ".join(stop_calls), unit.label, ctx.havocs[-3:]))
+    name, args, env_at = box["hit"]
+    return name, args, env_at, ctx
+
+
 def definedness(prefix, unit, pre, ctx, obs, allow_panic=True):
     """Side obligations generated by the evaluator: divisions by non-zero, sqrt of non-negative, overflow."""
     side = [Implies(o.pc, o.cond) for o in ctx.obls]
